@@ -11,7 +11,9 @@
 //!
 //! Space `nests` looks inside one FUNC with a larger menu: a three-level INLINE nest with the
 //! origin id of every subset of its levels undefined (a level without INLINE_ORIGIN yields no
-//! frame for that level only), an eight-level nest, and STACK WIN records that split the FUNC,
+//! frame for that level only), an eight-level nest, INLINE records (and ranges of one record)
+//! written in file orders unrelated to their address order (all six orders of three disjoint
+//! depth-0 records, descending lists, interleaved multi-range records), and STACK WIN records that split the FUNC,
 //! start before / inside it, leave its entry uncovered or reach beyond it (the parameter size is
 //! that of the record covering the *address*).
 //!
@@ -63,10 +65,12 @@ const F2_SIZE: [u32; 4] = [0, 1, 2, 4];
 const F2_ADDRS: u64 = 11; // 0..=10
 const N_LINES: u64 = 8;
 /// INLINE menus 0..N_INL go into the big product; N_INL..N_INL_ALL (undefined origins at every
-/// subset of the levels of a three-level nest, an eight-level nest) only into the `nests` and
-/// `stackframe` spaces.
+/// subset of the levels of a three-level nest, an eight-level nest, record sets whose file order is
+/// independent of their address order) only into the `nests` and `stackframe` spaces.
 const N_INL: u64 = 11;
-const N_INL_ALL: u64 = 19;
+const N_INL_ALL: u64 = 29;
+/// the six file orders of three records
+const PERM3: [[usize; 3]; 6] = [[0, 1, 2], [0, 2, 1], [1, 0, 2], [1, 2, 0], [2, 0, 1], [2, 1, 0]];
 const N_F2SUB: u64 = 2;
 const N_PUB: u64 = 9;
 /// STACK WIN menus 0..N_WIN go into the big product; N_WIN..N_WIN_ALL (a FUNC split over several
@@ -124,6 +128,21 @@ fn inl_menu(m: u64, a: u64) -> Vec<InlineRec> {
             i(6, 7, 1, 3, &[(a + 2, 1)]),
             i(7, 8, 1, 8, &[(a + 2, 1)]),
         ],
+        // 19..=28: the order of the INLINE records (and of the ranges of one record) in the file has
+        // nothing to do with their address order; none of these sets overlaps at one depth.
+        // 19..=24: three depth-0 records [a,1) [a+1,2) [a+4,2) (nothing at a+3) in each of the six file orders
+        19..=24 => {
+            let recs = [i(0, 1, 1, 1, &[(a, 1)]), i(0, 2, 1, 2, &[(a + 1, 2)]), i(0, 3, 1, 3, &[(a + 4, 2)])];
+            PERM3[(m - 19) as usize].iter().map(|&k| recs[k].clone()).collect()
+        }
+        // depth 0 then depth 1, each depth with descending addresses
+        25 => vec![i(0, 1, 1, 1, &[(a + 3, 3)]), i(0, 2, 1, 2, &[(a, 3)]), i(1, 3, 1, 3, &[(a + 4, 1)]), i(1, 1, 1, 1, &[(a + 1, 1)])],
+        // the same records, the deeper level written first
+        26 => vec![i(1, 3, 1, 3, &[(a + 4, 1)]), i(1, 1, 1, 1, &[(a + 1, 1)]), i(0, 1, 1, 1, &[(a + 3, 3)]), i(0, 2, 1, 2, &[(a, 3)])],
+        // the ranges of one record listed with descending addresses, at two depths
+        27 => vec![i(0, 1, 1, 1, &[(a + 4, 1), (a + 2, 1), (a, 1)]), i(1, 2, 1, 2, &[(a + 4, 1), (a, 1)])],
+        // the ranges of two depth-0 records interleaved in the address space, each list descending
+        28 => vec![i(0, 1, 1, 1, &[(a + 3, 1), (a, 1)]), i(0, 2, 1, 2, &[(a + 4, 2), (a + 1, 2)]), i(1, 3, 1, 3, &[(a + 5, 1), (a + 1, 1)])],
         _ => unreachable!(),
     }
 }
@@ -766,7 +785,7 @@ fn main() {
         let mut def = CheckDef::new(
             "C11",
             "exploration",
-            "bounded-exhaustive: every symbol file of the menu product {FUNC f0 at 1|3 size 0|1|3|6} x {FUNC f1 at 0..10 size 0|1|2|4} x {8 line tables: sizes 0..6, line numbers 0,1,2,5,6,9, nested, duplicate, unknown file} x {11 INLINE sets: depth 0..2, multi-range, origin outside/inside a FUNC block/undefined, call line 0/1/2, unknown call file, same-depth overlap, empty range, duplicate key, depth gap} x {2 sub-record sets of f1} x {9 PUBLIC sets} x {4 STACK WIN sets} (thorough: x {third FUNC: none | 8 placements} x {file order of f0,f1}), parsed by the real parser and queried by SymbolFile::fill_symbol at offsets -1..=17 under module bases 0, 0x1000, 2^64-16; expected = linear scan over the generator's records. Space `nests` (what happens inside one FUNC): {f0 at 1|3 size 0|1|3|6} x {8 line tables} x {19 INLINE sets = the 11 above + the three-level nest (3 levels at a+1, 2 at a and a+3, 1 at a+2) with the origin id of every non-empty subset of its levels defined nowhere (outermost / middle / innermost / any two / all three dangling) + an eight-level nest (depth 0..7) whose levels 3 and 7 dangle} x {10 STACK WIN sets = the 4 above + FUNC split over two frame-data records with different sizes, FPO at the entry and frame data only further in, a record starting inside the FUNC with nothing at its entry and reaching beyond it, a record starting before the FUNC and covering only its first byte, three pieces of two types, pieces with gaps and the entry uncovered} x {f1 far behind with own sub-records | touching f0's end | inside f0} x {PUBLIC none | inside f0 | right behind f0}, same lookups and oracle. Space `stackframe`: one-FUNC files (all 19 INLINE sets, 4 STACK WIN sets - thorough: all 10) through walk_stack/Symbolizer into StackFrame. evaluations = lookups; distinct_nontrivial = distinct file shapes (menu choices x relative position of the FUNC ranges: before / touching / overlapping / nested / equal / empty) with at least one symbolicated address (+ distinct (file, address) pairs symbolicated in the StackFrame space).",
+            "bounded-exhaustive: every symbol file of the menu product {FUNC f0 at 1|3 size 0|1|3|6} x {FUNC f1 at 0..10 size 0|1|2|4} x {8 line tables: sizes 0..6, line numbers 0,1,2,5,6,9, nested, duplicate, unknown file} x {11 INLINE sets: depth 0..2, multi-range, origin outside/inside a FUNC block/undefined, call line 0/1/2, unknown call file, same-depth overlap, empty range, duplicate key, depth gap} x {2 sub-record sets of f1} x {9 PUBLIC sets} x {4 STACK WIN sets} (thorough: x {third FUNC: none | 8 placements} x {file order of f0,f1}), parsed by the real parser and queried by SymbolFile::fill_symbol at offsets -1..=17 under module bases 0, 0x1000, 2^64-16; expected = linear scan over the generator's records. Space `nests` (what happens inside one FUNC): {f0 at 1|3 size 0|1|3|6} x {8 line tables} x {29 INLINE sets = the 11 above + the three-level nest (3 levels at a+1, 2 at a and a+3, 1 at a+2) with the origin id of every non-empty subset of its levels defined nowhere (outermost / middle / innermost / any two / all three dangling) + an eight-level nest (depth 0..7) whose levels 3 and 7 dangle + 10 sets whose order in the file is independent of the address order: three disjoint depth-0 records [a,1) [a+1,2) [a+4,2) in each of their 6 file orders, two depth-0 then two depth-1 records each depth with descending addresses, the same with the deeper level written first, multi-range records (3 ranges at depth 0, 2 at depth 1) whose ranges are listed with descending addresses, two depth-0 two-range records interleaved in the address space plus a depth-1 two-range record, every list descending} x {10 STACK WIN sets = the 4 above + FUNC split over two frame-data records with different sizes, FPO at the entry and frame data only further in, a record starting inside the FUNC with nothing at its entry and reaching beyond it, a record starting before the FUNC and covering only its first byte, three pieces of two types, pieces with gaps and the entry uncovered} x {f1 far behind with own sub-records | touching f0's end | inside f0} x {PUBLIC none | inside f0 | right behind f0}, same lookups and oracle. Space `stackframe`: one-FUNC files (all 29 INLINE sets, 4 STACK WIN sets - thorough: all 10) through walk_stack/Symbolizer into StackFrame. evaluations = lookups; distinct_nontrivial = distinct file shapes (menu choices x relative position of the FUNC ranges: before / touching / overlapping / nested / equal / empty) with at least one symbolicated address (+ distinct (file, address) pairs symbolicated in the StackFrame space).",
         );
         def.assumptions = vec![
             "exact comparison is made when no two valid FUNC ranges intersect, PUBLIC addresses are distinct, STACK WIN records of one type do not intersect, and within the FUNC covering the address no two line records intersect and no two same-depth INLINE ranges intersect; otherwise only the statement's weaker promises are checked (reported FUNC contains the address; reported PUBLIC is the nearest at or below it and is not cut off by a FUNC that overlaps nothing; a FUNC that overlaps nothing is reported for its addresses; source line / inline frames come from records of the reported FUNC covering the address; bases never exceed the instruction)".into(),
@@ -774,6 +793,7 @@ fn main() {
             "a PUBLIC exactly at the start address of the nearest preceding FUNC counts as cut off by that FUNC (the FUNC's range lies between the PUBLIC and the address)".into(),
             "inline nesting is the chain of consecutive depths 0,1,2,.. that cover the address (a depth-n range without a covering depth-(n-1) range is not part of the chain), as the INLINE record documentation defines nesting".into(),
             "FILE / INLINE_ORIGIN ids that are not defined yield no file name / no frame for that level (not an error); an undefined origin affects that level only: the levels nested inside it and outside it are reported as if it were defined (fill_symbol: every level is looked up in inline_origins on its own; the call site of the next deeper level is attached to the next defined name)".into(),
+            "the order in which the INLINE records of a FUNC, and the ranges within one INLINE record, are written in the file does not matter: the covering record of a depth is found by a scan over all of them (the parser sorts them; nothing in the format requires ascending addresses)".into(),
             "parameter size = that of the STACK WIN record covering the *address* (frame data before FPO), whether or not that record starts at, spans or stays inside the FUNC; the FUNC's own value only if no STACK WIN record covers the address".into(),
         ];
         def.extra.insert("module_bases".into(), json!(["0x0", "0x1000", "0xfffffffffffffff0"]));
